@@ -5,10 +5,11 @@ import pathlib
 import sys
 
 sys.path.insert(0, str(pathlib.Path(__file__).resolve().parent.parent))
-from hmslint.normalize import normalize_module  # noqa: E402
+from hmslint.model import Program  # noqa: E402
 
 repo, rel = sys.argv[1], sys.argv[2]
-t = normalize_module(ast.parse((pathlib.Path(repo) / rel).read_text()))
+prog = Program(repo)
+t = next(m.tree for m in prog.modules.values() if m.relpath == rel)
 if len(sys.argv) > 3:
     for n in ast.walk(t):
         if isinstance(n, (ast.FunctionDef, ast.ClassDef)) and n.name == sys.argv[3]:
